@@ -27,3 +27,5 @@ impl MemoryInstance {
         }
     }
 }
+
+include!(concat!(env!("FUELLABS_FUEL_VM_VERIF_DIR"), "/incrate/vm/c23_memory.rs"));
